@@ -438,7 +438,7 @@ pub fn oracle(c: &Case, probe: &mut Probe) -> Result<(), Fail> {
     Ok(())
 }
 
-fn strategy() -> BoxedStrategy<Case> {
+pub fn strategy() -> BoxedStrategy<Case> {
     let val = || prop_oneof![3 => proptest::sample::select(EDGES.to_vec()), 3 => -5i64..=5, 2 => any::<i64>()];
     // vectors whose i128 sum fits in i64 (values bounded by 2^56, length <= 64)
     let small = || prop_oneof![4 => -4i64..=4, 2 => -(1i64 << 56)..(1i64 << 56), 1 => Just(0i64)];
